@@ -204,6 +204,32 @@ def after_an_ended_connection(args):
         return version, scenario, [], traceback.format_exc()
 
 
+def ticket_again(args):
+    """the 120 s lifetime holds every time a ticket is shown, not only the first: one server, an ordinary session with a fresh ticket,
+    and the byte-identical ticket presented again `gap` seconds later — admitted while younger than 120 s, refused afterwards"""
+    import crash_session as cs
+    version, gap = args
+    try:
+        cfg = ps.Cfg(version=version, credentials=True, fragment_size=16, resend_timeout=0.5, ping_timeout=1.0, resend_limit=2)
+        se = cs.run_special(cfg, 1, "ticket-again:%g" % gap)
+        bad = []
+        ops = {o[0]: o for o in se.ops}
+        if se.crash or se.timed_out:
+            bad.append("the session ended abnormally (crash=%s, timed out=%s)" % (se.crash, se.timed_out))
+        if ops.get("connect", [0, 0, 0, None])[3] != "ok":
+            bad.append("the first connection (valid fresh ticket) was not established: %r" % (ops.get("connect"),))
+        rc = ops.get("reconnect", [0, 0, 0, None])
+        age = rc[1]      # the ticket was issued at virtual time 0
+        got = rc[3]
+        if age < 118 and got != "ok":
+            bad.append("the same ticket, %.1f s old, presented a second time to the server that admitted it before was refused: %r" % (age, got))
+        if age > 121 and got == "ok":
+            bad.append("the same ticket presented a second time %.1f s after it was issued (older than 120 s) was admitted: the handler ran and echoed; the lifetime was enforced only the first time" % age)
+        return version, "ticket-again:%g" % gap, bad, None
+    except Exception:
+        return version, "ticket-again:%g" % gap, [], traceback.format_exc()
+
+
 def cases(rng, quick):
     out = []
     OK = {"server": True, "client": True}
@@ -309,6 +335,14 @@ def run(ctx):
             for what in bad:
                 ctx.violation("c05:after-ended:%s:v%d" % (scenario, version), what, {"version": version, "scenario": scenario,
                               "how": "harness/corr_C05.py after_an_ended_connection((version, scenario))"})
+        gaps = [60, 112, 125, 200] if quick else [10, 60, 100, 112, 116, 123, 125, 130, 200, 1000, 86400 + 30]
+        for version, scenario, bad, err in pool.imap_unordered(ticket_again, [(v, g) for v in (1, 0) for g in gaps]):
+            if err:
+                ctx.corr_break("c05-session-harness", "session crashed in the harness", {"traceback": err, "scenario": scenario}); continue
+            ctx.case(key=("ticket-again", version, scenario), nontrivial=True, tag="same-ticket-again-at-one-server")
+            for what in bad:
+                ctx.violation("c05:%s:v%d" % (scenario, version), what, {"version": version, "scenario": scenario,
+                              "how": "harness/corr_C05.py ticket_again((version, gap))"})
     # the interpreter's flags are part of the environment: the same verdicts with assertions compiled away (python -O)
     import json, subprocess, sys
     sub = [(i, c, sd) for (i, c, sd) in jobs if c.get("expect") is not None and not c.get("history")]
